@@ -64,25 +64,30 @@ func rowsOf(out *luagen.Outcome) []string {
 
 func metaExtra(w *lib.Writer, tier string, seed uint64) {
 	for _, p := range metaExtraProgs {
-		out := luagen.Run(p.src, nil)
-		rows := rowsOf(out)
-		ok := out.Ok && out.GoFail == "" && len(rows) == len(p.want)
-		if ok {
-			for i := range rows {
-				if !strings.Contains(rows[i], p.want[i]) {
-					ok = false
-				}
+		runMetaExtraProg(w, p.name, p.src, p.want, p.kf)
+	}
+	apiExtra(w, tier, seed)
+}
+
+func runMetaExtraProg(w *lib.Writer, name, src string, want []string, kf string) {
+	out := luagen.Run(src, nil)
+	rows := rowsOf(out)
+	ok := out.Ok && out.GoFail == "" && len(rows) == len(want)
+	if ok {
+		for i := range rows {
+			if !strings.Contains(rows[i], want[i]) {
+				ok = false
 			}
 		}
-		c := lib.Case{Input: map[string]any{"meta_extra": p.name, "src": p.src}, Observed: out.Summary(), Class: "extra-" + p.name,
-			Nontrivial: true, Coq: "CProg [] (Outcome [] (OOk []))"}
-		if p.kf != "" {
-			c.KF = []string{p.kf}
-		}
-		id := w.Add(c)
-		w.Meta.GoOnlyChecked++
-		if !ok {
-			w.GoFail(id, fmt.Sprintf("metamethod program %q: expected rows %q, got %q (ok=%v err=%s %s)", p.name, p.want, rows, out.Ok, out.Err.String(), out.GoFail))
-		}
+	}
+	c := lib.Case{Input: map[string]any{"meta_extra": name, "src": src}, Observed: out.Summary(), Class: "extra-" + name,
+		Nontrivial: true, Coq: "CProg [] (Outcome [] (OOk []))"}
+	if kf != "" {
+		c.KF = []string{kf}
+	}
+	id := w.Add(c)
+	w.Meta.GoOnlyChecked++
+	if !ok {
+		w.GoFail(id, fmt.Sprintf("metamethod program %q: expected rows %q, got %q (ok=%v err=%s %s)", name, want, rows, out.Ok, out.Err.String(), out.GoFail))
 	}
 }
